@@ -269,13 +269,13 @@ pub fn gen_set(r: &mut Rng, o: &GenOpts) -> Vec<FileSpec> {
     for f in 0..n { for b in 0..files[f].len() { order.push((f, b)); } }
     for k in (1..order.len()).rev() { let j = r.below(k as u64 + 1) as usize; order.swap(k, j); }
     let total: u32 = order.iter().map(|&(f, b)| files[f][b].len() as u32 + 12).sum();
-    let base: u32 = match r.below(6) { 0 => 0x0200, 1 => 0xFE00 - total, 2 => 0xFE00 - files.iter().flatten().map(|b| b.len() as u32).sum::<u32>(), _ => 0x3000 + r.below(0x100) as u32 * 16 };
+    let base: u32 = match r.below(7) { 0 => 0x0200, 1 => 0xFE00 - total, 2 => 0xFE00 - files.iter().flatten().map(|b| b.len() as u32).sum::<u32>(), 3 => 0, _ => 0x3000 + r.below(0x100) as u32 * 16 };
     let tight = r.below(6) == 2 || base + total > 0xFE00;
     let mut cur = base;
     let mut placed: Vec<(usize, u32, u32)> = vec![]; // (file, start, end)
     for (k, &(f, b)) in order.iter().enumerate() {
         let len = files[f][b].len() as u32;
-        let mut start = cur + if tight { 0 } else { match r.below(6) { 0..=2 => 0, 3 => 1, 4 => 3, _ => 10 } };
+        let mut start = cur + if tight || (base == 0 && k == 0) { 0 } else { match r.below(6) { 0..=2 => 0, 3 => 1, 4 => 3, _ => 10 } };
         if k > 0 && !tight && r.chance(o.overlap_pct, 100) {
             let &(pf, ps, pe) = placed.last().unwrap();
             if pf != f {
@@ -288,6 +288,20 @@ pub fn gen_set(r: &mut Rng, o: &GenOpts) -> Vec<FileSpec> {
         files[f][b].orig = start as u16;
         placed.push((f, start, start + len));
         cur = cur.max(start + len);
+    }
+    // a definition at address x0000 (the placeholder address of externals) that another file declares external:
+    // when the layout starts at x0000, move such a label of the first block's file onto its first word
+    if base == 0 && !order.is_empty() {
+        let (f0, b0) = order[0];
+        let wanted: Vec<String> = defs[f0].iter().filter(|d| (0..n).any(|g| g != f0 && exts[g].iter().any(|(e, _)| e.eq_ignore_ascii_case(d)))).cloned().collect();
+        if !wanted.is_empty() && !files[f0][b0].stmts.is_empty() && files[f0][b0].orig == 0 {
+            let name = r.pick(&wanted).clone();
+            for blk in files[f0].iter_mut() {
+                blk.end_labels.retain(|l| l != &name);
+                for s in blk.stmts.iter_mut() { s.labels.retain(|l| l != &name); }
+            }
+            files[f0][b0].stmts[0].labels.push(name);
+        }
     }
     // a label shared at one address: end label of a block = first label of the touching block of another file
     for i in 0..placed.len() {
